@@ -417,7 +417,8 @@ impl Parser {
 
     fn extract_filename(&self, path: &String) -> String {
         let path = Path::new(path);
-        let file_name = OsStr::to_string_lossy(path.file_name().unwrap());
+        // paths like "" or ".." have no file name, using whole path so that caller can report it as invalid
+        let file_name = OsStr::to_string_lossy(path.file_name().unwrap_or(path.as_os_str()));
         file_name.to_string()
     }
 
